@@ -1047,7 +1047,11 @@ class Model:
             for e in side.get("hist", []):
                 states.append(self.step(states, e))
             return states
-        st = self.source(side["src"])
+        st = self.source(side["src"]).copy()
+        # columns created inside the operand get ids of their own (the counters of two independently
+        # derived tables would otherwise hand out the same ids, e.g. "m1" on both sides of a join)
+        self._n_side = getattr(self, "_n_side", 0) + 1
+        st.n_new = 1000 * self._n_side
         states = [st]
         if side.get("alias"):
             states[0] = self._alias(st, 0, keep=False, name=side["alias"] if isinstance(side["alias"], str) else None)
